@@ -16,7 +16,25 @@ use crate::runner::{hash128, Action, Cfg, History, Oracles, Runner};
 
 pub const GOLDEN_SIZES: [u64; 4] = [1024, 4096, 5000, 16384];
 /// (file stem, page size, history kind): kind 1 leaves a free list that needs more than one page
-pub const GOLDENS: [(&str, u64, u8); 5] = [("p1024", 1024, 0), ("p4096", 4096, 0), ("p5000", 5000, 0), ("p16384", 16384, 0), ("p1024-bigfree", 1024, 1)];
+/// kind 2: the last commit deleted a nested bucket and then its ancestor, which makes the pinned
+/// release write the nested bucket's page ids twice into the free-list page
+pub const GOLDENS: [(&str, u64, u8); 6] = [("p1024", 1024, 0), ("p4096", 4096, 0), ("p5000", 5000, 0), ("p16384", 16384, 0), ("p1024-bigfree", 1024, 1), ("p1024-dupfree", 1024, 2)];
+
+pub fn golden_history_dupfree(p: u64) -> Vec<Action> {
+    let third = format!("w*{}", p * 3 / 10);
+    let mut c1 = vec![OpSpec::bucket("create", &[], "a"), OpSpec::bucket("create", &["a"], "b"), OpSpec::bucket("create", &["a", "b"], "c"), OpSpec::bucket("create", &[], "keep")];
+    for i in 0..6 {
+        c1.push(OpSpec::put(&["a", "b", "c"], &format!("c{:02}", i), &third));
+        c1.push(OpSpec::put(&["a", "b"], &format!("b{:02}", i), &third));
+        c1.push(OpSpec::put(&["a"], &format!("a{:02}", i), &third));
+        c1.push(OpSpec::put(&["keep"], &format!("k{:02}", i), &third));
+    }
+    vec![
+        tx(c1),
+        tx(vec![OpSpec::put(&["keep"], "k00", "v*16"), OpSpec::put(&["a", "b", "c"], "c00", "v*16")]),
+        tx(vec![OpSpec::bucket("delb", &["a", "b"], "c"), OpSpec::bucket("delb", &["a"], "b"), OpSpec::put(&["keep"], "k07", &third)]),
+    ]
+}
 
 /// History of the `bigfree` golden: a three-level tree of 330 entries, most of them deleted again,
 /// so that the persisted free list is longer than one page.
@@ -147,9 +165,10 @@ pub fn generate() -> i32 {
         }
         let path = format!("{}/gen.db", scratch);
         let cfg = Cfg { pagesize: p, num_pages: 32, ..Cfg::default() };
-        let acts = if kind == 1 { golden_history_bigfree(p) } else { golden_history(p) };
+        let acts = if kind == 2 { golden_history_dupfree(p) } else if kind == 1 { golden_history_bigfree(p) } else { golden_history(p) };
         let mut r = Runner::new(&path, cfg.clone()).expect("create");
-        let or = Oracles { rets: true, dump_after: true, fileck: true, dbcheck: true, ..Oracles::NONE };
+        // (kind 2 is about a free list the independent reader and DB::check object to)
+        let or = if kind == 2 { Oracles { rets: true, dump_after: true, ..Oracles::NONE } } else { Oracles { rets: true, dump_after: true, fileck: true, dbcheck: true, ..Oracles::NONE } };
         for a in &acts {
             let v = r.step(a, &or);
             if !v.is_empty() || r.poisoned {
@@ -162,7 +181,12 @@ pub fn generate() -> i32 {
         let bytes = std::fs::read(&path).unwrap();
         let hw = fileck::high_water(&bytes, p);
         let rep = fileck::check(&bytes[..hw], p).expect("golden must parse");
-        assert!(rep.ok(), "golden not well-formed: {:?}", rep.errors);
+        if kind == 2 {
+            assert!(!rep.ok() && rep.errors.iter().all(|e| e.contains("free")), "dupfree golden: expected only free-list complaints, got {:?}", rep.errors);
+            println!("dupfree golden, complaints of the independent reader: {:?}", rep.errors);
+        } else {
+            assert!(rep.ok(), "golden not well-formed: {:?}", rep.errors);
+        }
         assert!(rep.contents.same_contents(&model));
         assert!(!rep.free.is_empty(), "golden must have a non-empty free list");
         if kind == 1 {
@@ -289,7 +313,10 @@ fn check_golden_inner(check: &mut Coll, g: &Golden, variant: &str, bytes: &[u8],
             return;
         }
     }
-    if let Err(e) = guarded(|| db.check()).unwrap_or_else(|p| Err(jammdb::Error::InvalidDB(p))) {
+    // (not for the dupfree golden: the pinned release listed free pages twice there, and the
+    // library's own check says so until the first commit has rewritten the list)
+    if g.stem.ends_with("dupfree") {
+    } else if let Err(e) = guarded(|| db.check()).unwrap_or_else(|p| Err(jammdb::Error::InvalidDB(p))) {
         check.violation("golden_dbcheck", &format!("[golden p{} {}] DB::check(): {:?}", g.pagesize, variant, e), || json!({"engine": "compatx", "golden": g.pagesize, "variant": variant}));
     }
     }
@@ -326,6 +353,8 @@ pub fn run(check: &mut Check) {
         // the independent reader must agree with the recorded contents first
         match fileck::check(&g.bytes, g.pagesize) {
             Ok(rep) if rep.ok() && rep.contents.same_contents(&g.model) => {}
+            // the dupfree golden: the pinned release listed some free pages twice
+            Ok(rep) if g.stem.ends_with("dupfree") && rep.contents.same_contents(&g.model) && rep.errors.iter().all(|e| e.contains("free")) => {}
             other => check.machinery_error(format!("golden p{} does not parse with fileck: {:?}", g.pagesize, other.map(|r| r.errors))),
         }
         check_golden(check, g, "as-written", &g.bytes, &g.model, &path, &mut counts);
